@@ -222,7 +222,7 @@ func ruleOpExhaustive(c *Ctx, pkgs ...string) {
 func runC11(c *Ctx) {
 	P := c.P
 	c.Explanation = "Decides structural clauses: (R-EDIT-SPAN) every Edit built by the edit-script constructor takes X from a slice expression over lhs and Y from one over rhs — 'the very spans of lhs and rhs', not equal-looking copies — and the bounds of an X span are never index variables of rhs and vice versa. (R-EDIT-OPTABLE) every Edit literal in packages slice and mdiff sets exactly the fields the documentation of Edit assigns to its opcode (Drop/Emit: X; Copy: Y; Replace: X and Y). (R-OP-EXHAUSTIVE) every switch over EditOp in non-test code handles all four opcodes or has a default arm that panics or returns an error (the two half-switches of the context format are exempt by the format's definition). Does NOT decide that applying the script yields rhs, minimality (LCS length), canonical form, emptiness iff equal, or the exact span bounds."
-	c.rule("R-EDIT-SPAN", 7, "X spans are slices of lhs, Y spans slices of rhs; span bounds use the matching side's index variables")
+	c.rule("R-EDIT-SPAN", 4, "X spans are slices of lhs, Y spans slices of rhs; span bounds use the matching side's index variables")
 	c.rule("R-EDIT-OPTABLE", 6, "Op ↔ fields as documented on every Edit literal with a constant opcode")
 	c.rule("R-OP-EXHAUSTIVE", 6, "every EditOp switch is exhaustive or has a strict default")
 
@@ -282,45 +282,112 @@ func runC11(c *Ctx) {
 		}
 	}
 	oc := newOrig(esf)
-	for _, l := range editLiterals(esf) {
-		k, _ := constInt(l.op)
-		for _, side := range []struct {
-			field string
+	// the builder and the package-local helpers it hands its spans to
+	type site struct {
+		caller *ssa.Function
+		call   *ssa.Call
+	}
+	callSites := map[*ssa.Function][]site{}
+	closure := []*ssa.Function{esf}
+	inClosure := map[*ssa.Function]bool{esf: true}
+	for i := 0; i < len(closure) && i < 32; i++ {
+		f := closure[i]
+		allInstrs(f, func(in ssa.Instruction) {
+			call, ok := in.(*ssa.Call)
+			if !ok {
+				return
+			}
+			cal := origin(staticCallee(&call.Call))
+			if cal == nil || cal.Blocks == nil || cal.Pkg == nil || cal.Pkg != origin(esf).Pkg || cal == esf {
+				return
+			}
+			callSites[cal] = append(callSites[cal], site{f, call})
+			if !inClosure[cal] {
+				inClosure[cal] = true
+				closure = append(closure, cal)
+			}
+		})
+	}
+	// judgeSpan judges the value v (in function f) used as field X or Y; `via` names the chain of helpers.
+	var judgeSpan func(f *ssa.Function, v ssa.Value, field string, key string, pos token.Pos, depth int)
+	judgeSpan = func(f *ssa.Function, v ssa.Value, field string, key string, pos token.Pos, depth int) {
+		side := struct {
 			param *ssa.Parameter
 			idx   int
 			other string
-		}{{"X", lhs, li, "rhs"}, {"Y", rhs, ri, "lhs"}} {
-			v, ok := l.set[side.field]
-			if !ok {
-				continue
-			}
-			key := fmt.Sprintf("slice.editScriptFunc:Edit{%s}.%s", opNames[k], side.field)
-			o := oc.of(v)
-			if !o.onlyParam(side.idx) {
-				c.bad("R-EDIT-SPAN", key, l.pos, fmt.Sprintf("%s has origin %s; it must be a span of %s itself (the tests compare values, so an equal-looking span of the other input passes them)", side.field, o, side.param.Name()))
-				continue
-			}
-			// bounds must not be index variables of the other side
-			inner := v
-			if ct, ok := inner.(*ssa.ChangeType); ok {
-				inner = ct.X
-			}
-			sl, ok := inner.(*ssa.Slice)
-			if !ok {
-				c.undecided("R-EDIT-SPAN", key, l.pos, "span is not a slice expression")
-				continue
-			}
-			var ls []ssa.Value
-			seen := map[ssa.Value]bool{}
-			leaves(sl.Low, seen, &ls)
-			leaves(sl.High, seen, &ls)
-			badLeaf := ""
-			for _, lf := range ls {
-				if directIdx[lf] == side.other {
-					badLeaf = ksym(lf)
+		}{lhs, li, "rhs"}
+		if field == "Y" {
+			side.param, side.idx, side.other = rhs, ri, "lhs"
+		}
+		if f != esf {
+			// inside a helper: the span must be one of the helper's parameters (or derived only from it); judge the argument at every call site
+			o := newOrig(f).of(v)
+			pi := -1
+			for k := range f.Params {
+				if o.onlyParam(k) {
+					pi = k
 				}
 			}
-			c.judge(badLeaf == "", "R-EDIT-SPAN", key, l.pos, "span of "+side.param.Name()+" bounded by its own offsets", "the bounds of this "+side.param.Name()+" span use "+badLeaf+", an index variable of "+side.other)
+			if pi < 0 || depth > 3 || len(callSites[f]) == 0 {
+				c.bad("R-EDIT-SPAN", key, pos, fmt.Sprintf("%s has origin %s inside helper %s; it must be a span of %s itself handed down by the builder", field, o, f.Name(), side.param.Name()))
+				return
+			}
+			direct := v == ssa.Value(f.Params[pi])
+			if ct, ok := v.(*ssa.ChangeType); ok && ct.X == ssa.Value(f.Params[pi]) {
+				direct = true
+			}
+			for n, cs := range callSites[f] {
+				k2 := fmt.Sprintf("%s via %s#%d", key, cs.caller.Name(), n+1)
+				if !direct {
+					// a sub-span computed in the helper: only the origin can be judged
+					k2 += " (origin only)"
+				}
+				judgeSpan(cs.caller, cs.call.Call.Args[pi], field, k2, cs.call.Pos(), depth+1)
+			}
+			return
+		}
+		o := oc.of(v)
+		if !o.onlyParam(side.idx) {
+			c.bad("R-EDIT-SPAN", key, pos, fmt.Sprintf("%s has origin %s; it must be a span of %s itself (the tests compare values, so an equal-looking span of the other input passes them)", field, o, side.param.Name()))
+			return
+		}
+		if strings.HasSuffix(key, "(origin only)") {
+			c.ok("R-EDIT-SPAN", key, pos, "span of "+side.param.Name())
+			return
+		}
+		// bounds must not be index variables of the other side
+		inner := v
+		if ct, ok := inner.(*ssa.ChangeType); ok {
+			inner = ct.X
+		}
+		sl, ok := inner.(*ssa.Slice)
+		if !ok {
+			c.undecided("R-EDIT-SPAN", key, pos, "span is not a slice expression")
+			return
+		}
+		var ls []ssa.Value
+		seen := map[ssa.Value]bool{}
+		leaves(sl.Low, seen, &ls)
+		leaves(sl.High, seen, &ls)
+		badLeaf := ""
+		for _, lf := range ls {
+			if directIdx[lf] == side.other {
+				badLeaf = ksym(lf)
+			}
+		}
+		c.judge(badLeaf == "", "R-EDIT-SPAN", key, pos, "span of "+side.param.Name()+" bounded by its own offsets", "the bounds of this "+side.param.Name()+" span use "+badLeaf+", an index variable of "+side.other)
+	}
+	for _, f := range closure {
+		for _, l := range editLiterals(f) {
+			k, _ := constInt(l.op)
+			for _, field := range []string{"X", "Y"} {
+				v, ok := l.set[field]
+				if !ok {
+					continue
+				}
+				c.sawFn(fnName(f))
+				judgeSpan(f, v, field, fmt.Sprintf("%s:Edit{%s}.%s", fnName(f), opNames[k], field), l.pos, 0)
+			}
 		}
 	}
 	ruleOpTable(c, "slice", "mdiff")
